@@ -162,6 +162,19 @@ def worker_main(argv):
             if vs:
                 reproduced += 1
         b["reproduced"] = "%d/3" % reproduced
+        if reproduced == 0 and b["verdicts"] and b["verdicts"][0].get("kind") == "stuck":
+            # a hang that needs a rare interleaving: replay with varied hook seeds (full S4 window, so every hit is a complete witness), stop at the first hit
+            import re as _re
+            tries = 0
+            for tries in range(1, 81):
+                text2 = _re.sub(r"hookseed=\d+", "hookseed=%d" % ((seed * 7919 + widx * 104729 + tries * 1000003) % 60000 + 1), b["program"])
+                outcome, rc, hist, output = runner.run(text2, active_cpus=b["active_cpus"], budget_s=chk.case_budget_s)
+                if outcome == "stuck":
+                    b["program"] = text2
+                    b["reproduced"] = "1/%d with the hook seed varied" % tries
+                    break
+            else:
+                b["reproduced"] = "0/3 (and 0/80 with the hook seed varied)"
         b["recipe"] = _jsonable(b["recipe"])
         b["worker"] = dict(cpu=cpu, kind=kind, variant=variant, seed=seed, widx=widx)
         with open(os.path.join(outdir, "fail-%d.json" % widx), "w") as f:
